@@ -102,6 +102,9 @@ func EvalImage(root string, s *Script, img []byte, present bool, after []Step) I
 		}
 		if g := sizes[i] - prev; g > 0 {
 			a.Flushed, a.Sz = true, g-BH
+			if a.Sz < 0 {
+				a.Sz = 0 // growth no block explains: the model will not follow, which is reported
+			}
 		}
 		if sizes[i] >= 0 {
 			prev = sizes[i]
